@@ -54,6 +54,12 @@ pub fn first_error_stage(r: &str) -> Option<usize> {
         return Some(0);
     }
     for tok in r.split(' ') {
+        if tok.starts_with("fin:") {
+            if tok.starts_with("fin:err") {
+                return Some(usize::MAX - 1);
+            }
+            continue;
+        }
         if let Some(rest) = tok.strip_prefix('f') {
             if let Some((k, tail)) = rest.split_once(':') {
                 if tail.starts_with("err(") {
@@ -61,7 +67,9 @@ pub fn first_error_stage(r: &str) -> Option<usize> {
                     if tail.starts_with("err(parameter)") {
                         continue;
                     }
-                    return k.parse().ok();
+                    if let Ok(k) = k.parse() {
+                        return Some(k);
+                    }
                 }
             }
         }
@@ -112,7 +120,9 @@ fn check_flip(ctx: &mut Ctx, file: &[u8], c: &ChunkPos, at: usize, mask: u8, wha
         return;
     }
     let stage = first_error_stage(&r);
-    let failed_in_time = matches!(stage, Some(k) if k <= c.frame || (c.frame >= frames_in(base) && k == usize::MAX - 1));
+    // the frame the chunk belongs to, in the file as it now is (a type flip can take it out of a data sequence)
+    let frame = chunk_positions(&flipped).iter().find(|x| x.start == c.start).map(|x| x.frame).unwrap_or(c.frame).max(c.frame);
+    let failed_in_time = matches!(stage, Some(k) if k <= frame || (frame >= frames_in(base) && k == usize::MAX - 1));
     if failed_in_time {
         return;
     }
